@@ -775,17 +775,38 @@ def max_anchor(evs):
     return m
 
 
-import re as _re
-# a '{' or an explicit-key '?' (both set the scanner's flow_mapping_started flag, which nothing clears), and later a
-# flow-sequence entry that starts with ':'
-KNOWN_EMPTYKEY = _re.compile(r"(\{|\?[ \t\r\n])[\s\S]*[\[,]\s*:[\s\],]")
-KNOWN_SETTER = _re.compile(r"(\{|\?[ \t\r\n])[\s\S]*\[")      # a flag setter and, later, a flow sequence
+# Regression inputs of the repaired class "empty-key-flow-pair-after-flow-mapping" (/repo ad74b3e: the scanner's sticky
+# flow_mapping_started flag is gone; the implicit-flow-mapping state lives in a per-collection stack that is empty between
+# documents).  Each entry is a list of accepted parts; the parts are concatenated with "...\n" like every other
+# combination and go through the same oracle: a failure is a VIOLATION.
+C15_REGRESSION_PARTS = [
+    ["{x}\n", "[ : ]\n"],
+    ["[ ? a ]\n", "[ : c ]\n"],
+    ["{}\n", "[ : v ]\n"],
+    ["{a: b}\n", "[ a: b, : c, d ]\n"],
+    ["[ ? ]\n", "[ : ]\n"],
+    ["- {}\n", "- [ : v ]\n", "[ a: b ]\n"],
+    ["? {a: [b]}\n: c\n", "[ : v, w ]\n", "{ ? }\n", "[ : ]\n"],
+    ["--- {x}\n", "--- [ : ]\n"],
+]
+# the same class without a '...' line: the next document is opened by '---' directly
+C15_REGRESSION_DIRECT = [
+    ("{x}\n", "---\n[ : ]\n"),
+    ("[ ? a ]\n", "---\n[ : c ]\n"),
+    ("{}\n", "--- [ : v ]\n"),
+]
 
 
-def c15_known_header(a):
-    import re
-    last = a.rstrip("\r\n").split("\n")[-1].split("\r")[-1]
-    return re.match(r"^(---[ \t]+)?([!&][^ ]*[ \t]+)*[|>][+-]?[1-9][+-]?[ \t]*(#.*)?$", last) is not None
+def c15_expected(single_lines, off0=0):
+    """expected event bodies of a concatenation: the parts' inner events with anchor ids renumbered"""
+    exp = ["SS"]
+    off = off0
+    for line in single_lines:
+        inner = split_line(line)[0][1:-1]
+        exp += [ev_body_renum(e, off) for e in inner]
+        off += max_anchor(inner)
+    exp.append("SE")
+    return exp
 
 
 def check_C15(tier, seed):
@@ -793,12 +814,24 @@ def check_C15(tier, seed):
     proof = prepare("C15", res)
     rng = gen.rng_for(seed, "C15")
     cases, dist = parse_cases(tier, seed, "C15", thin=4)
-    cases = [s for s in cases if "﻿" not in s]
+    cases = [s for s in cases if "\ufeff" not in s]
+    # dedicated regression streams (repaired class, see C15_REGRESSION_PARTS): appended to the case list so that they are
+    # parsed on their own like every other part
+    reg_index = {}
+    for part in [x for parts in C15_REGRESSION_PARTS for x in parts] + [x for pair in C15_REGRESSION_DIRECT for x in pair]:
+        if part not in reg_index:
+            reg_index[part] = len(cases)
+            cases.append(part)
     lines = [enc(s) for s in cases]
     if res.harness_ok and res.model_ok:
         single = run_hx(["events", "str"], lines)
         acc = [i for i in range(len(cases)) if single[i].endswith("|OK")]
         accA = [i for i in acc if cases[i].endswith(("\n", "\r"))]
+        for part, i in sorted(reg_index.items(), key=lambda kv: kv[1]):
+            res.evaluations += 1
+            if not single[i].endswith("|OK"):
+                res.add_violation("regression stream of the repaired flow-mapping-state class is not accepted on its own",
+                                  dict(input=part, codepoints=lines[i]), got=single[i][-300:])
         # anchors / directives / open-looking endings first: the interesting state carriers
         def interesting(i):
             s = cases[i]
@@ -806,78 +839,43 @@ def check_C15(tier, seed):
         accA.sort(key=lambda i: -interesting(i))
         hot = accA[:400]
         n_pairs = 6000 if tier == "quick" else 200000
-        combos = []
+        # the regression combinations come first (they are then also part of the model/implementation correspondence below)
+        combos = [[reg_index[x] for x in parts] for parts in C15_REGRESSION_PARTS
+                  if all(single[reg_index[x]].endswith("|OK") for x in parts)]
+        n_reg = len(combos)
         for _ in range(n_pairs):
             k = rng.choice([2, 2, 2, 3, 4])
             parts = [rng.choice(hot if rng.random() < 0.5 else accA) for _ in range(k - 1)] + [rng.choice(acc)]
             combos.append(parts)
         texts = ["...\n".join(cases[i] for i in parts[:-1]) + "...\n" + cases[parts[-1]] for parts in combos]
         # A ends with a break, so the marker sits on its own line
+        n_marker = len(combos)
+        # direct concatenations (no '...' line; the second part opens its document with '---'): regression streams only
+        for (x, y) in C15_REGRESSION_DIRECT:
+            if single[reg_index[x]].endswith("|OK") and single[reg_index[y]].endswith("|OK"):
+                combos.append([reg_index[x], reg_index[y]])
+                texts.append(x + y)
         tl = [enc(t) for t in texts]
-        known = core.known_findings("C15")
-        kf = set()
         for b in ("str", "iter"):
             got = run_hx(["events", b], tl)
-            failing = []
             for j, parts in enumerate(combos):
                 res.evaluations += 1
-                exp = ["SS"]
-                off = 0
-                for i in parts:
-                    evs = split_line(single[i])[0]
-                    inner = evs[1:-1]
-                    exp += [ev_body_renum(e, off) for e in inner]
-                    off += max_anchor(inner)
-                exp.append("SE")
+                exp = c15_expected([single[i] for i in parts])
                 gevs, gfin = split_line(got[j])
                 g = [ev_body_renum(e, 0) for e in gevs]
                 if gfin != "OK" or g != exp:
-                    failing.append((j, parts, g, gfin, exp))
+                    # no class of failures is excused any more: the flow_mapping_started leak (the one former known class,
+                    # repaired by /repo ad74b3e) is a VIOLATION like any other dependence between documents
+                    what = ("concatenation with document-end marker lines does not parse to the documents of the parts (%s)" % b
+                            if j < n_marker else
+                            "a stream followed by a '---' document does not parse to the documents of the parts (%s)" % b)
+                    if j < n_reg or j >= n_marker:
+                        what += " [regression stream of the repaired flow-mapping-state class]"
+                    res.add_violation(what, dict(input=texts[j], codepoints=tl[j], parts=[cases[i] for i in parts], backend=b),
+                                      got=";".join(g)[-600:] + "|" + gfin, expected=";".join(exp)[-600:])
                     continue
                 if b == "str" and sum(interesting(i) for i in parts) >= 2:
                     res.nontrivial.add(texts[j])
-            # Failures: is the whole misbehaviour explained by the recorded flag leak?  The scanner's flow_mapping_started
-            # flag is set by '{' and by an explicit key '?' in flow context and survives the document.  A later document is
-            # then read as it is read behind the one-document prefix "{}".  The failure is the KNOWN class iff an earlier
-            # part contains such a setter and the concatenation's events are exactly the parts' events with one or more of
-            # the later parts in their "behind {}" reading; anything else is a VIOLATION.
-            need = sorted(set(i for (_, parts, _, _, _) in failing for i in parts[1:]))
-            flagged = {}
-            if need and known:
-                fl = run_hx(["events", b], [enc("{}\n...\n" + cases[i]) for i in need])
-                for i, line in zip(need, fl):
-                    evs, fin = split_line(line)
-                    flagged[i] = (evs[5:] if fin != "OK" else evs[5:-1], fin)      # drop SS and the four events of "{}"
-            for (j, parts, g, gfin, exp) in failing:
-                explained = False
-                if known and KNOWN_SETTER.search(texts[j]):
-                    import itertools
-                    for choice in itertools.product((False, True), repeat=len(parts) - 1):
-                        if not any(choice):
-                            continue
-                        cand, off, cfin = ["SS"], 0, "OK"
-                        for pos, i in enumerate(parts):
-                            if pos > 0 and choice[pos - 1]:
-                                inner, fin = flagged[i]
-                            else:
-                                inner, fin = split_line(single[i])[0][1:-1], "OK"
-                            cand += [ev_body_renum(e, off) for e in inner]
-                            off += max_anchor(inner)
-                            if fin != "OK":
-                                cfin = fin
-                                break
-                        if cfin == "OK":
-                            cand.append("SE")
-                        msg = lambda f: f.split("#", 1)[-1]
-                        if cand == g and msg(cfin) == msg(gfin):
-                            explained = True
-                            break
-                if explained:
-                    kf.add("%s: %s" % (known[0]["class"], known[0]["what"]))
-                else:
-                    res.add_violation("concatenation with document-end marker lines does not parse to the documents of the parts (%s)" % b,
-                                      dict(input=texts[j], codepoints=tl[j], parts=[cases[i] for i in parts], backend=b),
-                                      got=";".join(g)[-600:] + "|" + gfin, expected=";".join(exp)[-600:])
         # through the loading interface: no anchor of an earlier document resolves in a later one
         probes = []
         for i in hot[:300]:
@@ -898,7 +896,6 @@ def check_C15(tier, seed):
                 if lone_alias and (it[j].endswith("|OK") or not ld[j].startswith("ERR")):
                     res.add_violation("an alias resolved through an anchor of an earlier document", dict(input=t, codepoints=pl[j]),
                                       load=ld[j][-300:], events=it[j][-300:])
-        res.known += sorted(kf)
         m = run_mx(["events", "str"], tl[:3000])
         g = run_hx(["events", "str"], tl[:3000])
         for j in range(len(m)):
@@ -907,7 +904,7 @@ def check_C15(tier, seed):
             if me != ie or fin_pos(mf) != fin_pos(if_):
                 res.add_tie_break("correspondence on concatenated streams: model != implementation", case=texts[j], model=m[j][-300:], impl=g[j][-300:])
         res.coverage["input_distribution"] = dict(groups=dist, accepted=len(acc), accepted_ending_in_break=len(accA), concatenations=len(combos),
-                                                  cross_document_alias_probes=len(probes))
+                                                  regression_streams=n_reg + len(combos) - n_marker, cross_document_alias_probes=len(probes))
         res.coverage["traces_validated_against_impl"] = len(m)
         for j in (0, len(texts) // 2, len(texts) - 1):
             res.samples.append(dict(input=texts[j][:300]))
